@@ -31,12 +31,16 @@ def gen_case(rng, tier, avoid):
     mrl = gen.record_length(rng, small=0.4)
     head = [{'op': 'new_file', 'fid': 'f0', 'kwargs': {'max_record_length': mrl}, 'c': 0}]
     progs = []
+    # header sequence numbers: increasing, all equal, decreasing or arbitrary - the files are emitted in CREATION order
+    seqs = rng.choice([[li + 1 for li in range(n_lf)], [1] * n_lf, [n_lf - li for li in range(n_lf)],
+                       [rng.randint(1, 9) for _ in range(n_lf)]])
     for li in range(n_lf):
         spec = gen.Spec(rng, fid='f0', px='L%d_' % li, client=li)
         spec.mrl = mrl
         lfi = {'lf': 'l%d' % li, 'channels': [], 'frames': [], 'nofmt': [], 'origins': [], 'objs': [], 'kw': {}}
         spec.lfs.append(lfi)
-        spec.emit({'op': 'add_lf', 'fid': 'f0', 'lf': lfi['lf'], 'kwargs': {'fh_id': 'LF-%d' % li, 'fh_sequence_number': li + 1}})
+        spec.emit({'op': 'add_lf', 'fid': 'f0', 'lf': lfi['lf'], 'kwargs': {'fh_id': 'LF-%d' % li,
+                                                                                   'fh_sequence_number': seqs[li]}})
         okw = {}
         if rng.random() < 0.4 and (li or 'cross_lf_backfill' not in avoid):
             okw['origin_reference'] = [3, 7, 130][li % 3] + li
